@@ -13,6 +13,7 @@ import (
 	"testing"
 	"time"
 
+	"github.com/foxcpp/maddy/internal/auth/pass_table"
 	"github.com/foxcpp/maddy/internal/endpoint/smtp"
 	"github.com/foxcpp/maddy/internal/zzverif/mx"
 	"verifkit/prng"
@@ -193,8 +194,8 @@ func runWire(t *testing.T, r *rep.Reporter, c *rep.Case, idx int) {
 	for j := 0; j < nacc; j++ {
 		canon := prng.Pick(p, e.names)
 		name, vk := spell(p, canon, prng.Pick(p, variantKinds))
-		pw := prng.Pick(p, passwordPool)
 		sc := prng.Pick(p, schemes)
+		pw := genPassword(p, sc.algo == pass_table.HashBcrypt)
 		err := e.pt.CreateUserHash(name, pw, sc.algo, sc.opts)
 		rec := opRec{Op: "create", Name: name, Canon: canon, Variant: vk, Pw: showPw(pw), PwLen: len(pw), Scheme: sc.name}
 		if err == nil {
@@ -215,7 +216,7 @@ func runWire(t *testing.T, r *rep.Reporter, c *rep.Case, idx int) {
 	if ex := e.model.existing(); len(ex) > 0 && p.Chance(1, 6) {
 		canon := prng.Pick(p, ex)
 		name, vk := spell(p, canon, prng.Pick(p, variantKinds))
-		pw := prng.Pick(p, passwordPool)
+		pw := genPassword(p, true)
 		err := e.pt.SetUserPassword(name, pw)
 		rec := opRec{Op: "set-password", Name: name, Canon: canon, Variant: vk, Pw: showPw(pw), PwLen: len(pw), Scheme: "bcrypt-default"}
 		if err == nil {
@@ -347,12 +348,12 @@ func runWire(t *testing.T, r *rep.Reporter, c *rep.Case, idx int) {
 			if mapped {
 				a = e.model.accts[canonAcct]
 			}
-			pw := choosePassword(p, a, e.model, canonAcct)
+			pw, _ := choosePassword(p, a, e.model, canonAcct)
 			if s == nsteps-1 && a != nil && a.exists && p.Chance(2, 3) {
 				pw = a.pw // end most connections with a good login
 			}
 			expect := mapped && a != nil && a.exists && a.pw == pw
-			mode := p.Weighted([]int{4, 4, 2, 1, 1})
+			mode := p.Weighted([]int{4, 4, 2, 2, 1})
 			var code int
 			var mech string
 			switch mode {
@@ -380,11 +381,13 @@ func runWire(t *testing.T, r *rep.Reporter, c *rep.Case, idx int) {
 				}
 			case 3: // foreign authorization identity, otherwise valid or not
 				mech = "PLAIN-foreign-authzid"
-				other := prng.Pick(p, e.names)
-				for other == canonLogin {
-					other = prng.Pick(p, e.names)
-				}
+				other, co := e.foreignAuthzid(p, canonLogin, canonAcct, mapped)
 				zid, _ := spell(p, other, prng.Pick(p, variantKinds))
+				if co && a != nil && a.exists && p.Chance(3, 4) {
+					pw = a.pw // a co-owner of a shared account with valid credentials
+					expect = true
+					r.Count("wire_foreign_authzid_co_owner_valid_credentials", 1)
+				}
 				code, _, err = w.cmd("AUTH PLAIN " + b64(zid+"\x00"+name+"\x00"+pw))
 				if expect {
 					nontrivial = true
